@@ -33,6 +33,10 @@ func monitorsExtra(m *mon) {
 		if strings.HasPrefix(n, "ORDER:") {
 			m.add("C04", "order", "%s", n)
 		}
+		if strings.HasPrefix(n, "TUNE:") {
+			m.add("C02", "wrong-limit", "%s", n)
+			m.add("C18", "tunepool-not-effective", "%s", n)
+		}
 		if strings.HasPrefix(n, "WFSTATUS:") {
 			m.add("C16", "not-processing", "%s", n)
 		}
@@ -352,13 +356,7 @@ func init() {
 			jn.wait()
 		}
 		e.drain()
-		if purged {
-			for _, s := range e.subs {
-				if len(s.tEnter) == 0 {
-					s.purgedAt = e.params["purgeT"]
-				}
-			}
-		}
+		_ = purged
 	})
 
 	// persist: persistent queues (plain / priority) with adapter faults
@@ -479,12 +477,19 @@ func init() {
 		nw := e.p("consumers", 1+r.Intn(3))
 		var ws []IWorkerBinder[int]
 		consumerGen, cgen := r.Intn(3) == 0, 0
+		withExpiry := r.Intn(3) == 0 // idle workers expire while notifications arrive
+		if withExpiry {
+			e.p("expiry", 1)
+		}
 		if consumerGen {
 			e.p("consumerGen", 1)
 		}
 		bindAll := func() {
 			for i := 0; i < nw; i++ {
 				cfg := []any{WithConcurrency(1 + r.Intn(3))}
+				if withExpiry {
+					cfg = append(cfg, WithIdleWorkerExpiryDuration(1000), WithMinIdleWorkerRatio(1))
+				}
 				if consumerGen {
 					// a consumer's own id generator has no say over the ids of stored entries
 					cfg = append(cfg, WithJobIdGenerator(func() string { cgen++; return "cg" + strconv.Itoa(cgen) }))
@@ -537,6 +542,14 @@ func init() {
 		}
 		if !bindFirst {
 			jn.goClient("binder", func() { vt.Yield(); bindAll() })
+		}
+		if withExpiry {
+			jn.goClient("clock", func() {
+				for k := 3 + r.Intn(6); k > 0; k-- {
+					vt.Yield()
+					vt.ForceTick()
+				}
+			})
 		}
 		if halt == "" && bindFirst && r.Intn(2) == 0 {
 			// Pause / Resume of the first consumer while items are being delivered: an item it has
